@@ -1,6 +1,14 @@
-(* Theorems about the streaming side of hash/base64le (StreamModel). *)
+(* Theorems about the streaming side of hash/base64le (StreamModel).
+   Encoder: enc_stream_eq, enc_stream_fault (statements as requested).
+   Decoder: dec_stream_valid is proved exactly as requested (no side condition had to be changed); it follows
+   from dec_stream_valid_tight, which needs only  length data + 1 <= length sizes  Read calls (every Read
+   delivers at least one byte until the data is exhausted, then one Read reports the end).
+   dec_stream_valid_err: the last script event carries an error x (with data, CR/LF only, or nothing) =>
+   the session delivers all the data and ends with x.
+   Files: StreamPEnc (encoder invariant), StreamPDecGen (one-shot decode_raw with any sufficient dcap:
+   decode_raw_canon), StreamPRead (r_read / nl_read / refill), StreamPDec (dec_read / dec_run). *)
 Require Import GC.Base.Bytes GC.B64.B64Model GC.B64.B64Spec GC.B64.StreamModel.
-Require Export GC.B64.StreamPEnc.
+Require Export GC.B64.StreamPEnc GC.B64.StreamPDecGen GC.B64.StreamPRead GC.B64.StreamPDec.
 
 (* any chunking, fault-free writer: exactly the one-shot encoding, and every call returns nil *)
 Theorem enc_stream_eq : forall e chunks,
@@ -39,5 +47,48 @@ Proof.
   split; [exact Hp|]. apply err_shape_sticky. exact Hs.
 Qed.
 
+(* ---------------- decoder, texts that are valid encodings ---------------- *)
+Definition no_errors (script : list revent) : Prop := Forall (fun ev => snd ev = None) script.
+
+(* the number of Read calls that is always enough (and, with one-byte buffers, needed): one per byte
+   of data plus the one that reports the end *)
+Theorem dec_stream_valid_tight : forall e data script sizes,
+  enc_wf e = true -> wf_bytes data = true -> no_errors script ->
+  strip_nl (concat (map fst script)) = encode e data ->
+  Forall (fun m => (1 <= m)%nat) sizes ->
+  (length data + 1 <= length sizes)%nat ->
+  dec_run e (dec_init script) sizes [] = (data, Some EOF).
+Proof.
+  intros e data script sizes Hwf Hb Hn Ht Hs Hl.
+  apply (dec_session e Hwf EOF script data sizes Hb (sends_no_errors script Hn) Ht Hs Hl).
+Qed.
+
+Theorem dec_stream_valid : forall e data script sizes,
+  enc_wf e = true -> wf_bytes data = true -> no_errors script ->
+  strip_nl (concat (map fst script)) = encode e data ->
+  Forall (fun m => (1 <= m)%nat) sizes ->
+  (length data + length script + 2 <= length sizes)%nat ->      (* enough Read calls *)
+  dec_run e (dec_init script) sizes [] = (data, Some EOF).
+Proof.
+  intros e data script sizes Hwf Hb Hn Ht Hs Hl.
+  apply dec_stream_valid_tight; auto. lia.
+Qed.
+
+(* the last event of the script carries an error x (with data, with only CR/LF, or with nothing):
+   all the data is delivered and the session ends with x *)
+Theorem dec_stream_valid_err : forall e data pre d x sizes,
+  enc_wf e = true -> wf_bytes data = true -> no_errors pre ->
+  strip_nl (concat (map fst (pre ++ [(d, Some x)]))) = encode e data ->
+  Forall (fun m => (1 <= m)%nat) sizes ->
+  (length data + 1 <= length sizes)%nat ->
+  dec_run e (dec_init (pre ++ [(d, Some x)])) sizes [] = (data, Some x).
+Proof.
+  intros e data pre d x sizes Hwf Hb Hn Ht Hs Hl.
+  apply (dec_session e Hwf x (pre ++ [(d, Some x)]) data sizes Hb (sends_last_err pre d x Hn) Ht Hs Hl).
+Qed.
+
 Print Assumptions enc_stream_eq.
 Print Assumptions enc_stream_fault.
+Print Assumptions dec_stream_valid_tight.
+Print Assumptions dec_stream_valid.
+Print Assumptions dec_stream_valid_err.
